@@ -178,7 +178,7 @@ theorem typeOfNode_exact {env : Env} (hw : WfEnv env) {pc : Bool} {sp0 : Spell} 
   simp only [conforms]
   unfold typeOfNode
   have hconv : convOk a = true := by cases a <;> simp_all [convOk]
-  simp only [cfg_genericChecksOrigin, cfg_origin_type, not_asdict_of_plain hp, cfg_convertible, hconv,
+  simp only [cfg_req_type, cfg_req_Type, cfg_genericChecksOrigin, cfg_origin_type, not_asdict_of_plain hp, cfg_convertible, hconv,
     Bool.true_and, Bool.not_true, Bool.false_eq_true, ↓reduceIte, Bool.and_false, Bool.and_true]
   by_cases hsub : env.sub (v.typeOf env) env.typeCls = true
   · obtain ⟨c, rfl⟩ := (shape_of_wf hwf).1 hsub
@@ -302,11 +302,7 @@ theorem bareNode_cases (env : Env) (o : BareOrigin) (v : Val) :
   · simp only [cfg_req_bare_builtin o hb, hb, cfg_bare o hb, Bool.not_true, Bool.false_eq_true, ↓reduceIte]
     split <;> simp
   · have hb' : o.isBuiltin = false := by simpa using hb
-    by_cases ht : o = .tType
-    · subst ht
-      simp only [cfg_req_tType, BareOrigin.isBuiltin, Bool.not_true, Bool.false_eq_true, ↓reduceIte]
-      split <;> simp
-    · simp [cfg_req_bare o hb' ht]
+    simp [cfg_req_bare o hb']
 
 
 /-- completeness of `_check_type` on the guarded vocabulary (restated in Props/C02.lean) -/
